@@ -171,42 +171,223 @@ Proof.
   replace (S c - 1) with c by lia. now apply shape_rec_rect.
 Qed.
 
+(* the count invariant of the (repaired) input_shape: the product of the shape is the number of
+   elements flatten yields, for every value, rectangular or not *)
+Lemma prod_shape_rec c : forall l, prod (shape_rec c l) = List.length (flatten (S c) l).
+Proof.
+  induction c as [|c IH]; intros l.
+  - cbn [shape_rec prod fold_right flatten].
+    rewrite (length_flat_map_const _ 1 l); [lia|].
+    apply Forall_forall. intros [z|ch] _; reflexivity.
+  - cbn [shape_rec].
+    destruct (scan (shape_rec c) None l) as [s|] eqn:E.
+    + destruct (scan_None_inv _ _ _ E) as [ch [r [-> [_ Hall]]]].
+      set (l := Node ch :: r) in *.
+      cbn [prod fold_right]. change (fold_right Nat.mul 1 s) with (prod s).
+      change (flatten (S (S c)) l) with
+        (flat_map (fun val => match val with Node ch => flatten (S c) ch | Leaf _ => [val] end) l).
+      rewrite (length_flat_map_const _ (prod s) l); [reflexivity|].
+      unfold all_shape in Hall. rewrite Forall_forall in *. intros v Hv.
+      destruct (Hall v Hv) as [ch' [-> <-]]. symmetry. apply IH.
+    + cbn [prod fold_right]. lia.
+Qed.
+
+Lemma prod_input_shape n l : 1 <= n -> prod (input_shape l n) = List.length (flatten n l).
+Proof.
+  intros Hn. unfold input_shape. destruct n as [|c]; [lia|].
+  replace (S c - 1) with c by lia. apply prod_shape_rec.
+Qed.
+
+(* ------------------------------------------------------------------ element extraction *)
+
+(* the indices of a field enumerate, through map_splits' lookup, exactly the elements at its depth *)
+Lemma get_all cd l :
+  1 <= ndim_shape cd ->
+  map (get_elem cd l) (single_ind cd l) = map Some (elements_at_depth (ndim_shape cd) (Node l)).
+Proof.
+  intros Hn. unfold get_elem, single_ind, range.
+  assert (E : ndim_flat cd l = ndim_shape cd) by (destruct cd; reflexivity).
+  rewrite E, (prod_input_shape _ _ Hn), <- flatten_spec. apply map_nth_error_seq.
+Qed.
+
+Lemma single_ind_length cd l :
+  1 <= ndim_shape cd -> List.length (single_ind cd l) = List.length (elements_at_depth (ndim_shape cd) (Node l)).
+Proof.
+  intros Hn. unfold single_ind, range. rewrite seq_length, (prod_input_shape _ _ Hn). now rewrite flatten_spec.
+Qed.
+
 (* ------------------------------------------------------------------ one field *)
 
-Lemma split1_iff_count n l :
-  split1 (Some n) l = Jobs (elements_at_depth n (Node l)) <->
-  prod (input_shape l n) = List.length (flatten n l).
-Proof.
-  unfold split1, single_ind, get_elem, range. cbn [ndim_shape ndim_flat].
-  rewrite <- flatten_spec. split.
-  - intros H.
-    destruct (sequence (map (nth_error (flatten n l)) (seq 0 (prod (input_shape l n))))) as [r|] eqn:E;
-      [|discriminate].
-    inversion H; subst r. apply sequence_length in E. rewrite map_length, seq_length in E. lia.
-  - intros ->. now rewrite map_nth_error_seq, sequence_map_Some.
-Qed.
+Lemma split1_full cd l :
+  1 <= ndim_shape cd -> split1 cd l = Jobs (elements_at_depth (ndim_shape cd) (Node l)).
+Proof. intros Hn. unfold split1. now rewrite (get_all cd l Hn), sequence_map_Some. Qed.
 
-Lemma split1_rect n l :
-  1 <= n -> rectangular n (Node l) -> split1 (Some n) l = Jobs (elements_at_depth n (Node l)).
-Proof.
-  intros Hn R. apply split1_iff_count.
-  rewrite (input_shape_rect n l Hn R), (prod_dims n _ R). now rewrite flatten_spec.
-Qed.
+Lemma single_full n l : 1 <= n -> single_ok n (Node l) (split1 (Some n) l).
+Proof. intros Hn. exact (split1_full (Some n) l Hn). Qed.
 
 (* a field without a container_ndim entry behaves like container dimension 1 *)
 Lemma split1_default l : split1 None l = split1 (Some 1) l.
 Proof. reflexivity. Qed.
 
-(* the pinned code drops the element 3 of [[1,2],[3]] *)
+(* ------------------------------------------------------------------ two fields *)
+
+Lemma split2_outer cdx x cdy y :
+  1 <= ndim_shape cdx -> 1 <= ndim_shape cdy ->
+  split2 Outer cdx x cdy y =
+  Jobs (list_prod (elements_at_depth (ndim_shape cdx) (Node x)) (elements_at_depth (ndim_shape cdy) (Node y))).
+Proof.
+  intros Hx Hy. unfold split2, pair_ind.
+  change (get_pair cdx x cdy y) with (pairup (get_elem cdx x) (get_elem cdy y)).
+  change (range (prod (input_shape x (ndim_shape cdx)))) with (single_ind cdx x).
+  change (range (prod (input_shape y (ndim_shape cdy)))) with (single_ind cdy y).
+  rewrite (pairup_prod _ _ _ _ _ _ (get_all cdx x Hx) (get_all cdy y Hy)).
+  now rewrite sequence_map_Some.
+Qed.
+
+Lemma split2_inner cdx x cdy y :
+  1 <= ndim_shape cdx -> 1 <= ndim_shape cdy ->
+  inner_ok (ndim_shape cdx) (Node x) (ndim_shape cdy) (Node y) (split2 Inner cdx x cdy y).
+Proof.
+  intros Hx Hy. unfold split2, pair_ind.
+  destruct (list_eqb Nat.eqb (input_shape x (ndim_shape cdx)) (input_shape y (ndim_shape cdy))) eqn:E.
+  - apply nat_list_eqb_eq in E.
+    change (get_pair cdx x cdy y) with (pairup (get_elem cdx x) (get_elem cdy y)).
+    change (range (prod (input_shape x (ndim_shape cdx)))) with (single_ind cdx x).
+    change (range (prod (input_shape y (ndim_shape cdy)))) with (single_ind cdy y).
+    rewrite (pairup_combine _ _ _ _ _ _ (get_all cdx x Hx) (get_all cdy y Hy)), sequence_map_Some.
+    cbn [inner_ok]. split; [|reflexivity].
+    rewrite <- !flatten_spec, <- (prod_input_shape _ _ Hx), <- (prod_input_shape _ _ Hy). now rewrite E.
+  - cbn [inner_ok]. intros [Rx [Ry D]].
+    rewrite (input_shape_rect _ _ Hx Rx), (input_shape_rect _ _ Hy Ry), D in E.
+    now rewrite (proj2 (nat_list_eqb_eq _ _) eq_refl) in E.
+Qed.
+
+(* equal-shape rectangular operands are accepted and paired position by position *)
+Lemma split2_inner_rect cdx x cdy y :
+  1 <= ndim_shape cdx -> 1 <= ndim_shape cdy ->
+  rectangular (ndim_shape cdx) (Node x) -> rectangular (ndim_shape cdy) (Node y) ->
+  dims (ndim_shape cdx) (Node x) = dims (ndim_shape cdy) (Node y) ->
+  split2 Inner cdx x cdy y =
+  Jobs (combine (elements_at_depth (ndim_shape cdx) (Node x)) (elements_at_depth (ndim_shape cdy) (Node y))).
+Proof.
+  intros Hx Hy Rx Ry D. pose proof (split2_inner cdx x cdy y Hx Hy) as H.
+  destruct (split2 Inner cdx x cdy y) as [l| |]; cbn [inner_ok] in H.
+  - destruct H as [_ ->]. reflexivity.
+  - exfalso. apply H. auto.
+  - destruct H.
+Qed.
+
+(* ------------------------------------------------------------------ examples: the hypotheses are met
+   non-trivially, and the value that lost an element before the repair now yields all three *)
 Definition witness : list value := [Node [Leaf 1; Leaf 2]; Node [Leaf 3]]%Z.
-Lemma witness_drops : split1 (Some 2) witness = Jobs [Leaf 1; Leaf 2]%Z.
+Example witness_ragged : rectangularb 2 (Node witness) = false.
+Proof. reflexivity. Qed.
+Example witness_all : split1 (Some 2) witness = Jobs [Leaf 1; Leaf 2; Leaf 3]%Z.
 Proof. vm_compute. reflexivity. Qed.
-Lemma witness_elements : elements_at_depth 2 (Node witness) = [Leaf 1; Leaf 2; Leaf 3]%Z.
+Definition square : list value := [Node [Leaf 1; Leaf 2]; Node [Leaf 3; Leaf 4]]%Z.
+Example square_rect : rectangular 2 (Node square) /\ dims 2 (Node square) = [2; 2].
+Proof. split; [apply (rectangularb_spec 2); reflexivity| reflexivity]. Qed.
+Example square_inner :
+  split2 Inner (Some 2) square (Some 2) square =
+  Jobs [(Leaf 1, Leaf 1); (Leaf 2, Leaf 2); (Leaf 3, Leaf 3); (Leaf 4, Leaf 4)]%Z.
+Proof. vm_compute. reflexivity. Qed.
+Example square_inner_plain_rejected :
+  split2 Inner (Some 2) square None [Leaf 5; Leaf 6; Leaf 7; Leaf 8]%Z = ShapeError.
 Proof. vm_compute. reflexivity. Qed.
 
-Lemma single_refuted :
-  ~ (forall n l, 1 <= n -> single_ok n (Node l) (split1 (Some n) l)).
+(* ------------------------------------------------------------------ the executable spec used on the
+   correspondence cases decides the Prop spec the theorems are about *)
+Section ValueInd.
+  Variable P : value -> Prop.
+  Hypothesis HLeaf : forall z, P (Leaf z).
+  Hypothesis HNode : forall l, Forall P l -> P (Node l).
+  Fixpoint value_ind' (v : value) : P v :=
+    match v with
+    | Leaf z => HLeaf z
+    | Node l => HNode l ((fix go (l : list value) : Forall P l :=
+                            match l with
+                            | [] => Forall_nil P
+                            | x :: r => Forall_cons x (value_ind' x) (go r)
+                            end) l)
+    end.
+End ValueInd.
+
+Lemma value_eqb_node l : forall m, value_eqb (Node l) (Node m) = list_eqb value_eqb l m.
 Proof.
-  intros H. specialize (H 2 witness ltac:(lia)). unfold single_ok in H.
-  rewrite witness_drops, witness_elements in H. discriminate.
+  induction l as [|x l IH]; intros [|y m]; try reflexivity.
+  cbn [list_eqb]. rewrite <- IH. reflexivity.
 Qed.
+
+Lemma list_eqb_Forall {A} (eqb : A -> A -> bool) l :
+  Forall (fun x => forall y, eqb x y = true <-> x = y) l ->
+  forall m, list_eqb eqb l m = true <-> l = m.
+Proof.
+  induction 1 as [|x l Hx _ IH]; intros [|y m]; cbn [list_eqb].
+  - tauto.
+  - split; discriminate.
+  - split; discriminate.
+  - rewrite andb_true_iff, Hx, IH. split; [intros [-> ->]; reflexivity| intros E; inversion E; auto].
+Qed.
+
+Lemma value_eqb_eq : forall a b, value_eqb a b = true <-> a = b.
+Proof.
+  induction a as [z|l IH] using value_ind'; intros [z'|m].
+  - cbn. rewrite Z.eqb_eq. split; [now intros ->| now intros [= ->]].
+  - split; discriminate.
+  - split; discriminate.
+  - rewrite value_eqb_node, (list_eqb_Forall value_eqb l IH m).
+    split; [now intros ->| now intros [= ->]].
+Qed.
+
+Lemma pair_eqb'_eq a b : pair_eqb' a b = true <-> a = b.
+Proof.
+  destruct a as [a1 a2], b as [b1 b2]. unfold pair_eqb'. cbn [fst snd].
+  rewrite andb_true_iff, !value_eqb_eq. split; [intros [-> ->]; reflexivity| intros [= -> ->]; auto].
+Qed.
+
+Lemma outcome_eqb_eq {A} (eqb : A -> A -> bool) (H : forall x y, eqb x y = true <-> x = y) :
+  forall a b : outcome A, outcome_eqb eqb a b = true <-> a = b.
+Proof.
+  intros [l| |] [m| |]; cbn [outcome_eqb]; try (split; [discriminate|discriminate]); try tauto.
+  rewrite (list_eqb_spec eqb H). split; [now intros ->| now intros [= ->]].
+Qed.
+
+Lemma single_okb_spec n v o : single_okb n v o = true <-> single_ok n v o.
+Proof. apply (outcome_eqb_eq value_eqb value_eqb_eq). Qed.
+
+Lemma outer_okb_spec nx x ny y o : outer_okb nx x ny y o = true <-> outer_ok nx x ny y o.
+Proof. apply (outcome_eqb_eq pair_eqb' pair_eqb'_eq). Qed.
+
+Lemma inner_okb_spec nx x ny y o : inner_okb nx x ny y o = true <-> inner_ok nx x ny y o.
+Proof.
+  unfold inner_okb, inner_ok. destruct o as [l| |].
+  - rewrite andb_true_iff, Nat.eqb_eq, (list_eqb_spec pair_eqb' pair_eqb'_eq). tauto.
+  - rewrite negb_true_iff. split.
+    + intros E [Rx [Ry D]]. apply rectangularb_spec in Rx, Ry. apply nat_list_eqb_eq in D.
+      now rewrite Rx, Ry, D in E.
+    + intros H.
+      destruct (rectangularb nx x) eqn:Ex; [|reflexivity].
+      destruct (rectangularb ny y) eqn:Ey; [|reflexivity].
+      destruct (list_eqb Nat.eqb (dims nx x) (dims ny y)) eqn:Ed; [|reflexivity].
+      exfalso. apply H. rewrite <- !rectangularb_spec, <- nat_list_eqb_eq. auto.
+  - split; [discriminate|tauto].
+Qed.
+
+(* ------------------------------------------------------------------ the recursive definition of
+   "rectangular" implies the level-by-level reading: every level k < n holds lists of one common
+   length, the k-th dimension *)
+Lemma rect_levels k : forall n v,
+  rectangular n v -> k < n -> Forall (node_len (nth k (dims n v) 0)) (elements_at_depth k v).
+Proof.
+  induction k as [|k IH]; intros n v R Hk; (destruct n as [|n]; [lia|]);
+    (destruct v as [z|l]; [destruct R|]); destruct R as [RF RD].
+  - cbn. constructor; [|constructor]. exists l. auto.
+  - cbn [elements_at_depth dims nth].
+    destruct l as [|c0 r]; [constructor|].
+    apply Forall_flat_map. rewrite Forall_forall in *. intros c Hc.
+    rewrite <- (RD c c0 Hc (or_introl eq_refl)).
+    apply IH; [apply RF, Hc| lia].
+Qed.
+
+Lemma rect_level_uniform n v k : rectangular n v -> k < n -> level_uniform (elements_at_depth k v).
+Proof. intros R Hk. eexists. apply (rect_levels k n v R Hk). Qed.
